@@ -19,6 +19,16 @@ CLAIMED = {
 		text='Proved for all inputs: the header written into an output is read back to the same value (MetaHeader.__init__/to_json/to_header_str/from_json/try_from_content on the shape entrypoint.j2 writes), headers compare equal exactly when all five recorded fields agree, a module is selected for regeneration iff no header is readable or a recorded field differs from the current one, and the output-path rule equals its specification (first matching entry; per-rule injectivity lemma). The whole-run equality with a forced run additionally needs the dependency frame of transpile(): known finding F-C06-a, replayed on the real CLI on every run.',
 		note='json / md5 / os.path.join / re as assumed externals (json facts bounded-checked); file I/O assumed; cross-rule path distinctness needs a configuration precondition',
 		ref='DESIGN.md §4 C06'),
+	'C07': dict(
+		level='proof',
+		text='Proved at the normalisation boundaries: SyntaxParserOfLark.__load_entry lets only Errors.Syntax escape on both the on-disk and the in-memory branch although parser and source provider may raise anything; Procedure.__emit turns whatever a handler raises into an application error; the quotation line loader does not fail when the reported line exists. A bounded CLI twin feeds unparsable files through the real pipeline. Exception freedom of the code between the boundaries and termination are not decided.',
+		note='externals that "may raise anything" (lark, source provider, handlers) are over-approximated; raises sets are computed from the real ASTs including every implicit failure source',
+		ref='DESIGN.md §4 C07'),
+	'C09': dict(
+		level='proof',
+		text='Procedure.__stack_pop/__result/__make_event/__emit/__run_action/__action/__exec_impl/exec are verified against the stack discipline over an abstract Node interface: the event holds, per declared property, exactly the results of that property\'s nodes (list vs single, source order), exactly those are consumed, one result is pushed, results below are untouched, exec restores the stack of stacks. The induction over the whole tree and the node classes themselves are validated by a bounded monitor on real modules (never counted as proved).',
+		note='abstract Node interface (duplicate-free prop_keys: closed check by evaluation); one statement of __make_event is read through a stated rewrite; Middleware.emit assumed',
+		ref='DESIGN.md §4 C09'),
 	'C15': dict(
 		level='exploration',
 		text='Bounded stand-in only: the contract V(EntryOfLark(loads(json(dumps(T))))) == V(EntryOfLark(T)) is evaluated at run time on every lark tree up to 4 (5) nodes over an alphabet that contains the corner cases (multi-line tokens, unset/zero positions, empty meta, None placeholders, childless trees) and on real parse trees. Nothing is counted as proved: the two recursive functions work on third-party lark objects and heterogeneous dicts that the VC subset cannot carry without replacing most statements by assumed readings.',
@@ -44,7 +54,7 @@ NOT_APPLICABLE = {
 	'C02': 'equality of two parsers over all texts (lark LALR engine interpreting grammar data vs CPython): no function contract of tranp carries it; only differential testing could, which is a different family (DESIGN.md §5)',
 	'C03': 'type soundness of the inference engine against CPython run-time types needs formal semantics of both languages and the stub library; not expressible as a contract over one call or data structure (DESIGN.md §5)',
 }
-PENDING = {p: 'designed in DESIGN.md §4, contracts not built yet in this round' for p in ['C01','C04','C07','C08','C09','C10','C11','C12','C13','C14']}
+PENDING = {p: 'designed in DESIGN.md §4, contracts not built yet in this round' for p in ['C01','C04','C08','C10','C11','C12','C13','C14']}
 
 def main():
 	checks = []
